@@ -95,6 +95,11 @@ CHECKS = {
    technique="enumeration of a declared Go-type vocabulary × boundary values (wrap view, build+unwrap, marshal/unmarshal ×2 codecs, every out-of-width integer) plus exhaustive enumeration of binding-call histories (depth 2/3 over 15 calls), each history executed in its own subprocess and compared call-by-call with first-call results",
    text="For every declared Go type and boundary value the wrapped node must read as an independently written view of the Go value, rebuilding and unwrapping must reproduce it, and codec round trips into a fresh value must reproduce it; every integer that does not fit its Go field must be an error; every history of Wrap/Prototype/Marshal/Unmarshal calls with explicit, inferred and Go-only arguments must succeed with the results the same call gives in a fresh process.",
    note="Views are hand-written per Go type (no reflection shared with bindnode). dag-json skips values with integral floats (C04 finding). Inference histories use struct/list/scalar types only (what inferSchema supports)."),
+ "C20": dict(
+   category="model_checking", design_ref="DESIGN.md §5 C20", engine="sched",
+   technique="stateless exploration of all interleavings (preemption bound 2/3) of every unordered pair of 28 operations on shared objects under a cooperative scheduler, with scheduling points inserted by overlay rewriting at every accessor of shared mutable state and at every sync operation (sync shim with modelled lock waits); plus exhaustive write-footprint analysis of each operation (deep fingerprints of shared objects and package-level state) and a separate free-running -race pass over all pairs",
+   text="(a) every schedule within the bound of every operation pair: each goroutine's result equals its result alone, no panic, no deadlock; (b) no operation on shared objects, run alone, changes any shared object or package-level mutable state unless it synchronises; (c) the race detector reports nothing on any pair with 2 and 8 goroutines.",
+   note="Interleavings are explored at hook granularity (accessors of TypeSystem, Registry, Config/Progress init, lazy store initialisers, inferSchema, sync operations), not at every memory access; (b) sees persistent writes only; (c) is a free-running happens-before detector, used as the brief prescribes for unsynchronised accesses. Memory-model effects are not modelled. Known finding: reader-backed bytes nodes."),
 }
 
 NOT_YET = "check not built yet in this round (planned in DESIGN.md §5; will be claimed when its explorer exists)"
@@ -130,8 +135,8 @@ def main():
         "engines": [
             {"name": "enum", "path": "mc/core", "serves_properties": sorted(k for k,v in CHECKS.items() if v.get("engine","enum")=="enum"), "kind_free_text": "odometer / trie enumeration of bounded input and program spaces executed on the real code, sharded over 16 cores"},
             {"name": "bfs", "path": "mc/props/c12", "serves_properties": sorted(k for k,v in CHECKS.items() if v.get("engine")=="bfs"), "kind_free_text": "explicit-state search whose transitions call the real code; successor = replay of the shortest path on a fresh real object + 1 call; canonical key from the reference model"},
-            {"name": "sched", "path": "mc/core/sched.go", "serves_properties": ["C18"], "kind_free_text": "cooperative scheduler (one runnable goroutine at a time, hand-off at shim points) with depth-first enumeration of choice prefixes under iterative preemption bounding; schedules are replayable choice lists"},
-            {"name": "vos/vrand overlay shims", "path": "mc/shims", "serves_properties": ["C17", "C18"], "kind_free_text": "os and crypto/rand surfaces forwarded to the real ones after consulting a per-execution controller (log, yield, inject, crash); compiled into fsstore by go build -overlay from the working tree's own sources"},
+            {"name": "sched", "path": "mc/core/sched.go", "serves_properties": ["C18", "C20"], "kind_free_text": "cooperative scheduler (one runnable goroutine at a time, hand-off at shim points) with depth-first enumeration of choice prefixes under iterative preemption bounding; schedules are replayable choice lists"},
+            {"name": "vos/vrand overlay shims", "path": "mc/shims", "serves_properties": ["C17", "C18", "C20"], "kind_free_text": "(vsched/vsync for C20: scheduling points at shared-state accessors, scheduler-aware sync) os and crypto/rand surfaces forwarded to the real ones after consulting a per-execution controller (log, yield, inject, crash); compiled into fsstore by go build -overlay from the working tree's own sources"},
             {"name": "fault", "path": "mc/lsx", "serves_properties": sorted(k for k,v in CHECKS.items() if v.get("engine")=="fault"), "kind_free_text": "environment-answer enumerator: scripted storage reader/writer faults at every interaction of a recorded run"},
         ],
         "checks": checks,
